@@ -191,7 +191,12 @@ pub fn inputs_c04(r: &mut Rng, n: usize, _tier: &str, out: &mut dyn Write) {
 }
 
 pub fn inputs_c05(r: &mut Rng, n: usize, _tier: &str, out: &mut dyn Write) {
-    for _ in 0..n {
+    for k in 0..n {
+        if k % 12 == 11 {
+            // the thin public wrappers (from_X_seconds/days, to_X_seconds/days, to_tai(unit) ...) against the generic call
+            super::wrappers::gen_c05(r, out);
+            continue;
+        }
         let a = *r.pick(&UNIFORM);
         let b = *r.pick(&UNIFORM);
         let e = epoch_total(r, a);
@@ -380,7 +385,12 @@ pub fn inputs_c17(r: &mut Rng, n: usize, _tier: &str, out: &mut dyn Write) {
             }
         }
     }
-    for _ in 0..n {
+    for k in 0..n {
+        if k % 12 == 11 {
+            // from_mjd_X / from_jde_X wrappers and to_mjd_tai(unit) / to_jde_tai(unit) / to_unix(unit) against the named views
+            super::wrappers::gen_c17(r, out);
+            continue;
+        }
         let ts = *r.pick(&NONDYN);
         // within +/- 10 000 years of 1900
         let e = match r.below(3) {
